@@ -3631,6 +3631,35 @@ TABLE_EVAL += [
     {"file": EV, "fn": "mod_switch_drop_to_next_internal", "impl": "Evaluator", "model": "modSwitchDropDecision", "skeleton": SK_DROP_NEXT, "panic_escape": True},
 ]
 
+# --- C05 (phase 4l): the to-TARGET walk of NTT-form PLAINTEXTS and the plaintext one-step routine (the ciphertext walk is in phase 3).
+# TRUSTED readings: as above (levels are chain indices, index 0 = last level); `mod_switch_to_next_inplace(x)` / `mod_switch_to_next_plain_inplace(x)`
+# = object checked, the last level refused, one index down (their internals are tied separately: `mod_switch_to_next`, and
+# `mod_switch_drop_to_next_plain_internal` below); the walk's result is the list of chain indices visited.
+# `mod_switch_drop_to_next_plain_internal`: result = the number of words the plaintext is resized to (degree x prime count of the NEXT level).
+CTXP = "self.get_context_data(plain.parms_id())"
+NEXTP = CTXP + ".next_context_data()"
+SK_PLAIN_DROP_NEXT = {
+    "sig": "fn mod_switch_drop_to_next_plain_internal(ntt: bool, has_next: bool, ok_next: bool, n_next: usize, k_next: usize) -> usize",
+    "prologue": "let mut words: usize = 0;", "epilogue": "words",
+    "handles": [CTXP, NEXTP, NEXTP + ".unwrap()", NEXTP + ".unwrap().parms()"],
+    "exprs": {"plain.is_ntt_form()": "ntt", NEXTP + ".is_none()": "!has_next",
+              "Self::is_scale_within_bounds(plain.scale(), &%s.unwrap())" % NEXTP: "ok_next",
+              NEXTP + ".unwrap().parms().poly_modulus_degree()": "n_next", NEXTP + ".unwrap().parms().coeff_modulus().len()": "k_next"},
+    "effects": {"plain.set_parms_id(PARMS_ID_ZERO)": "", "plain.resize($dest)": "words = $dest;",
+                "plain.set_parms_id(*%s.unwrap().parms_id())" % NEXTP: ""}}
+SK_PLAIN_TO = {
+    "sig": "fn mod_switch_plain_to_inplace(valid: bool, ntt: bool, cur0: usize, tgt: usize) -> Vec<usize>",
+    "prologue": "let mut cur = cur0; let mut trace = vec![];", "epilogue": "trace",
+    "handles": [CTXP, "self.get_context_data(parms_id)"],
+    "exprs": {"plain.is_ntt_form()": "ntt", CTXP + ".chain_index()": "cur", "self.get_context_data(parms_id).chain_index()": "tgt",
+              "plain.parms_id() != parms_id": "cur != tgt"},
+    "effects": {"self.mod_switch_to_next_plain_inplace(plain)": "assert!(valid); assert!(cur != 0); cur = cur - 1; trace.push(cur);"}}
+TABLE_EVAL += [
+    {"file": EV, "fn": "mod_switch_drop_to_next_plain_internal", "impl": "Evaluator", "model": "plainDropNextWords", "skeleton": SK_PLAIN_DROP_NEXT, "panic_escape": True},
+    {"file": EV, "fn": "mod_switch_plain_to_inplace", "impl": "Evaluator", "model": "plainSwitchToPlan", "skeleton": SK_PLAIN_TO, "panic_escape": True,
+     "loops": [{"fuel": WALK_FUEL, "exhausted": "error"}]},
+]
+
 # --- C03 / C06 (phase 4g): CKKS scale bookkeeping and `multiply_plain`.  Scales are floats (opaque): the skeletons track WHICH scale the
 # ciphertext's scale slot holds (`sc`: 0 = the operand's own scale, +1 for every `set_scale(own * other)`), and take as Boolean inputs
 # `is_scale_within_bounds(<own scale>, <the operand's level>)` (`ok_own`) and `is_scale_within_bounds(<product>, <the operand's level>)`
